@@ -2346,6 +2346,38 @@ default_object_invocation	(vbi_decoder *		vbi,
  * enhancement we extend column 39.
  */
 static void
+column_41_copy			(vbi_char *		acp)
+{
+	acp[40] = acp[39];
+
+	/* Column 40 has no right neighbour and its left neighbour
+	   does not extend into it: it can be neither the left nor
+	   the right half of a double width character. */
+	switch (acp[40].size) {
+	case VBI_DOUBLE_WIDTH:
+		acp[40].size = VBI_NORMAL_SIZE;
+		break;
+
+	case VBI_OVER_TOP:
+		acp[40].size = (VBI_DOUBLE_SIZE == acp[38].size) ?
+			VBI_DOUBLE_HEIGHT : VBI_NORMAL_SIZE;
+		break;
+
+	case VBI_DOUBLE_SIZE:
+		acp[40].size = VBI_DOUBLE_HEIGHT;
+		break;
+
+	case VBI_DOUBLE_SIZE2:
+	case VBI_OVER_BOTTOM:
+		acp[40].size = VBI_DOUBLE_HEIGHT2;
+		break;
+
+	default:
+		break;
+	}
+}
+
+static void
 column_41			(vbi_page *		pg,
 				 struct ttx_extension *	ext)
 {
@@ -2361,7 +2393,7 @@ column_41			(vbi_page *		pg,
 
 	/* Header. */
 
-	acp[40] = acp[39];
+	column_41_copy (acp);
 	acp[40].unicode = 0x0020;
 
 	if (1 == pg->rows)
@@ -2396,7 +2428,7 @@ column_41			(vbi_page *		pg,
 
 	if (!black0 && cont39) {
 		for (row = 1; row <= 23; ++row) {
-			acp[40] = acp[39];
+			column_41_copy (acp);
 
 			if (!vbi_is_gfx (acp[39].unicode))
 				acp[40].unicode = 0x0020;
